@@ -167,7 +167,80 @@ def r0_named_return(text, log):
     return text[:arrow] + f"-> (r: {ty}) " + text[end:]
 
 
-STRUCTURAL = {"R5": r5_for_bytes, "R7": r7_mut_self, "R0": r0_named_return}
+def r4_format(text, log):
+    """R4: `format!(..)` -> `opaque_string()` (message text only; arguments are Display adaptors)."""
+    n = 0
+    while True:
+        m = L.mask(text)
+        mt = re.search(r"\b(?:bumpalo::)?format!\s*\(", m)
+        if not mt:
+            break
+        close = L.match_close(m, mt.end() - 1)
+        log.append({"rule": "R4-format", "before": text[mt.start():close + 1], "after": "opaque_string()"})
+        text = text[:mt.start()] + "opaque_string()" + text[close + 1:]
+        n += 1
+    if n == 0:
+        raise Lost("R4: no format! found")
+    return text
+
+
+def r12_unreachable(text, log):
+    """R12: `unreachable!(..)` -> `unreached()` (vstd: requires false), i.e. unreachability becomes an obligation."""
+    n = 0
+    while True:
+        m = L.mask(text)
+        mt = re.search(r"\bunreachable!\s*\(", m)
+        if not mt:
+            break
+        close = L.match_close(m, mt.end() - 1)
+        log.append({"rule": "R12-unreachable", "before": text[mt.start():close + 1], "after": "unreached()"})
+        text = text[:mt.start()] + "unreached()" + text[close + 1:]
+        n += 1
+    if n == 0:
+        raise Lost("R12: no unreachable! found")
+    return text
+
+
+def r6_for_enumerate(text, log):
+    """R6: `for (I, X) in V.iter().enumerate() {B}` -> `for I in 0..V.len() { let X = &V[I]; B }`"""
+    m = L.mask(text)
+    mt = re.search(r"\bfor\s*\(\s*(\w+)\s*,\s*(\w+)\s*\)\s*in\s*([\w.]+)\.iter\(\)\.enumerate\(\)\s*\{", m)
+    if not mt:
+        raise Lost("R6: no `for (i, x) in V.iter().enumerate()` loop")
+    i, x, v = mt.group(1), mt.group(2), mt.group(3)
+    new = f"for {i} in 0..{v}.len() {{ let {x} = &{v}[{i}];"
+    log.append({"rule": "R6-for-enumerate", "before": text[mt.start():mt.end()], "after": new})
+    return text[:mt.start()] + new + text[mt.end():]
+
+
+def r10_drop_loop(text, log):
+    """R10: `for P in X.iter_mut() {B}` where B only assigns through P is replaced by
+    one exec division per `A / B` in the body (so the divisor obligations stay) plus `havoc_loop_target(X)`."""
+    m = L.mask(text)
+    mt = re.search(r"\bfor\s+(\w+)\s+in\s+(\w+)\.iter_mut\(\)\s*\{", m)
+    if not mt:
+        raise Lost("R10: no `for p in X.iter_mut()` loop")
+    p, x = mt.group(1), mt.group(2)
+    bo = mt.end() - 1
+    bc = L.match_close(m, bo)
+    body, mbody = text[bo + 1:bc], m[bo + 1:bc]
+    # assignments must go through the loop variable (let-bindings are fine)
+    for am in re.finditer(r"(?m)^\s*([\w.\[\]*]+)\s*=[^=]", mbody):
+        if not am.group(1).startswith(p + "."):
+            raise Lost(f"R10: loop body assigns to {am.group(1)!r}, not through {p}")
+    fields = sorted({am.group(1) for am in re.finditer(r"(?m)^\s*([\w.\[\]*]+)\s*=[^=]", mbody)})
+    divs = re.findall(r"\(\s*([\w.]+)\s*/\s*([\w.]+)\s*\)", mbody)
+    for a, b in divs:
+        if a.split(".")[0] == p or b.split(".")[0] == p:
+            raise Lost("R10: division operand depends on the loop variable")
+    obl = "".join(f"        let _ = {a} / {b};   // R10: divisor obligation kept\n" for a, b in divs)
+    new = "{\n" + obl + f"        havoc_loop_target({x});   // R10: loop body dropped; it assigns only {fields}\n    }}"
+    log.append({"rule": "R10-drop-loop", "before": text[mt.start():bc + 1], "after": new})
+    return text[:mt.start()] + new + text[bc + 1:]
+
+
+STRUCTURAL = {"R5": r5_for_bytes, "R7": r7_mut_self, "R0": r0_named_return, "R4": r4_format, "R12": r12_unreachable,
+              "R6": r6_for_enumerate, "R10": r10_drop_loop}
 
 
 def apply_rewrites(text, rewrites, log):
@@ -292,7 +365,7 @@ def _extract_unit(repo, unit, log, canary=False):
     try:
         text = auto_rules(text, ulog)
         text = apply_rewrites(text, unit.get("rewrites", []), ulog)
-        if unit.get("pub_fields"):
+        if unit.get("pub_fields") or re.match(r"\s*pub struct\b", text):
             # R2-vis: private fields made `pub` (visibility only; needed for lemmas in a sibling module)
             text, n = re.subn(r"(?m)^(\s*)(?!pub\b)(\w+\s*:\s)", r"\1pub \2", text)
             ulog.append({"rule": "R2-vis", "before": "private fields", "after": f"pub ({n} fields)"})
